@@ -269,6 +269,10 @@ def validate(run, case, model, lazy=True, cache=True, tables_from='model') -> Va
         v.pull = ' pull' in r
         v.push = ' push' in r
         if r.startswith('ok'):
+            if v.convex and 'roworder_mismatch_anc' in r:
+                # the regenerated cache_triggering_ancestors, run on the trigger table in normal form (one row per simulator, in
+                # start order - the hypothesis of its tie), and the model's closure on the table as the model builds it disagree
+                v.disc.append(dict(kind='tables_anc', at=-1, detail='the regenerated ancestors closure on the normal-form table differs (as a map) from the model closure on the model-built table'))
             if v.convex and not v.certified:
                 v.disc.append(dict(kind='uncertified', at=-1, detail='the static tables of this convex scenario do not pass check_static: the premise static_ok of the scheduler theorems is not established'))
             r = 'ok'
